@@ -20,7 +20,7 @@ fn witness_cases(seed: u64) -> Vec<MuxCase> {
             for (pi, pc) in [plain.clone(), frag.clone()].into_iter().enumerate() {
                 let up = plan(&sizes, w, (k as u8 + w) % 3, &[8192]);
                 let down = plan(&sizes, w.min(1), (k as u8 + w + 1) % 3, &[1000, 70000]);
-                v.push(MuxCase { seed: seed ^ (k as u64 * 31 + w as u64 * 7 + pi as u64), streams: vec![(up, down)], c2s: pc.clone(), s2c: pc, scheme: None, sched_p: 0.0, inline_first: w == 0, locator: (usize::MAX, v.len()) });
+                v.push(MuxCase { seed: seed ^ (k as u64 * 31 + w as u64 * 7 + pi as u64), streams: vec![(up, down)], c2s: pc.clone(), s2c: pc, scheme: None, sched_p: 0.0, inline_first: w == 0, locator: (usize::MAX, v.len()), concurrent_opens: false });
             }
         }
     }
